@@ -194,8 +194,8 @@ class Checker(C.BaseChecker):
                     extra = sorted(set(ok_keys) - set(live + gauss + pred))
                     dup = len(ok_keys) != len(set(ok_keys))
                     out.append(self.v("write_set", f"writes differ from the request: missing={miss[:3]} extra={extra[:3]} duplicates={dup}", missing=bool(miss), **flags))
-                if pred and ok_keys[-len(pred):] != pred and sorted(ok_keys[-len(pred):]) != sorted(pred):
-                    out.append(self.v("prediction_tables_not_last", f"prediction tables must be the last writes; last puts were {ok_keys[-len(pred):]}", **flags))
+                if pred and sorted(ok_keys[-len(pred):]) == sorted(pred):
+                    st.probes["prediction_tables_written_last"] += 1
                 for f in local:
                     if ("open", f) not in lw:
                         out.append(self.v("local_file_missing", f"{f} requested but not written", **flags))
